@@ -81,3 +81,22 @@ package ip
 //@   ensures v6hi(res.addr) == v6hi(a.addr) & mask6hi(res.prefix) && v6lo(res.addr) == v6lo(a.addr) & mask6lo(res.prefix)
 //@   ensures v6valid(res)
 //@   assigns nothing
+
+//@ -- Parsing is an uninterpreted (deterministic) function of the text; used by callers' contracts only.
+//@ spec func cidrParseOK(s string) bool
+//@ spec func cidrParse(s string) CIDR
+//@ spec func cidrVersion(c CIDR) uint8
+//@ spec func addrParse(s string) Addr
+//@ func CIDRFromString
+//@   trusted
+//@   ensures (err == nil) <==> cidrParseOK(cidrStr)
+//@   ensures err == nil ==> res0 == cidrParse(cidrStr)
+//@   assigns nothing
+//@ func (CIDR).Version
+//@   trusted
+//@   ensures res == cidrVersion(recv)
+//@   assigns nothing
+//@ func FromString
+//@   trusted
+//@   ensures res == addrParse(s)
+//@   assigns nothing
